@@ -70,6 +70,11 @@ def scenarios(seed, tier):
         ('so3', dict(so3_bounds=[0.0, 0.0, 0.0998334166468, 0.995004165278, 2.2]), 'cone'),
         ('se3', dict(start=[0.5, 0.5, 0.5, 0.0, 0.0, 0.0, 2.0], goals=[[3.5, 3.5, 3.5, 0.0, 0.0, 1.2, 1.6]]), 'nonunit-rotation'),
     ]
+    # resolution set through the wrapper: before the problem definition is built, and - same object -
+    # after an earlier problem definition was built from it and is still alive
+    for v in ['rv', 'so2', 'so3']:
+        for preview in [False, True]:
+            extras.append((v, dict(lvs_fraction=0.004, preview_pd=preview), 'lvs-fraction' + ('-after-pd' if preview else '')))
     for v, over, tag in extras:
         for pl in ['rrt', 'rrtc', 'rrtstar']:
             b = dict(base[v])
@@ -262,6 +267,11 @@ def run_one(sc, twin=False):
             return g
 
     start = mk(sc['start'])
+    keep_alive = []
+    if sc.get('preview_pd'):
+        keep_alive.append(pdctor(sp, start, Goal()))
+    if sc.get('lvs_fraction'):
+        sp.set_longest_valid_segment_fraction(sc['lvs_fraction'])
     pd = pdctor(sp, start, Goal())
     cfg = B.PlannerConfig(seed=sc['seed'])
     pl = sc['planner']
